@@ -209,6 +209,7 @@ def installed(streams, clock=None, sandbox=None, capture=None, sync_threads=True
     fresh_loader_state()
     fresh_validation_state()
     fresh_class_state()
+    fresh_module_state()
     fresh_function_defaults()
     # Fuel: one op may start at most FUEL merges.  Links that lead into their own copies make
     # finalize descend without end; a count (not a clock) ends such a run the same way on replay.
@@ -330,6 +331,46 @@ def fresh_class_state():
                     if isinstance(val, (dict, set, list)) and not name.startswith("__") and \
                             (cls, name) not in _CLASS_IMPORT_STATE:
                         _CLASS_IMPORT_STATE[(cls, name)] = _copy_container(val)
+
+
+_MODULE_IMPORT_STATE = {}
+
+
+def fresh_module_state():
+    """Module-level mutable containers of the package (a cache keyed by something, a registry) are
+    process state like the class-level ones: restored to what they held when the harness first
+    saw them.  The loader tables have their own reset (fresh_loader_state)."""
+    import sys as _sys
+    for modname, mod in list(_sys.modules.items()):
+        if mod is None or not (modname == "odml" or modname.startswith("odml.")):
+            continue
+        for name, val in list(vars(mod).items()):
+            if name.startswith("__") or not isinstance(val, (dict, set, list)):
+                continue
+            if type(val) not in (dict, set, list):
+                continue        # subclasses (the terminology table) are instances with their own reset
+            if any(val is vars(m) for m in list(_sys.modules.values()) if m is not None):
+                continue        # a module's own namespace (odml.dtypes.self)
+            key = (modname, name)
+            if key not in _MODULE_IMPORT_STATE:
+                _MODULE_IMPORT_STATE[key] = type(val)(val)          # one level: the entries
+            else:
+                saved = _MODULE_IMPORT_STATE[key]
+                try:
+                    same = len(val) == len(saved) and (
+                        all(k in saved and val[k] is saved[k] for k in val) if isinstance(val, dict)
+                        else list(val) == list(saved) if isinstance(val, list) else val == saved)
+                except Exception:
+                    same = True
+                if not same:
+                    if isinstance(val, dict):
+                        val.clear()
+                        val.update(saved)
+                    elif isinstance(val, list):
+                        val[:] = saved
+                    else:
+                        val.clear()
+                        val.update(saved)
 
 
 _FUNC_DEFAULTS = {}
